@@ -18,6 +18,8 @@
                                                      3 table 4 commit | (5 tablecontent content) table index
                                                      | (6 tablecontent content) table profile
       (13 fmt bytes)                                 decode arbitrary bytes with the reader of format fmt (1..11)
+      (14 mode n size seed)                          volume case: n distinct valid objects (built by the harness from
+                                                     seed) saved through one badger transaction that overflows
 
     observation of a round-trip case ([obs_rt]):
       (st)                                        the encoder refused: st = 1 error, 2 panic
@@ -31,7 +33,9 @@
       CONTENT whose hash is the key suffix (the model runs with H = identity, Go maps each
       hash back to the content it came from) and value is the stored value, decompressed for
       blocks and block indices; get = (0 object) | (1), one per op, through Get<Kind>.
-    decode-only: (1) | (0 value rest R). *)
+    decode-only: (1) | (0 value rest R).
+    volume: (saved readable keys) - the prediction is (n n n): every Save returns an identifier,
+      every identifier reads back equal (C06_saved_objects_persist), the store lists exactly those keys. *)
 From W.lib Require Import Tree Bytes.
 From W.model Require Import CodecBase CodecStrList CodecPackfile CodecObjline CodecCommit
      CodecTable CodecProfile CodecStore.
@@ -187,5 +191,6 @@ Definition run_C06 (c : tree) : tree :=
   | 11 => run_header c
   | 12 => run_store c
   | 13 => run_decode c
+  | 14 => let n := Leaf (d_N (d_nth 2 c)) in Node [n; n; n]
   | _ => Node [Leaf 98]
   end.
